@@ -6,6 +6,7 @@ package keyvalue
 
 import (
 	"fmt"
+	"strings"
 
 	"github.com/janelia-flyem/dvid/datastore"
 	"github.com/janelia-flyem/dvid/storage"
@@ -36,6 +37,9 @@ func (d *Data) DescribeTKeyClass(tkc storage.TKeyClass) string {
 
 // NewTKey returns the "key" key component.
 func NewTKey(key string) (storage.TKey, error) {
+	if strings.IndexByte(key, 0) >= 0 {
+		return nil, fmt.Errorf("key %q contains a zero byte, which is reserved as the key terminator", key)
+	}
 	return storage.NewTKey(keyStandard, append([]byte(key), 0)), nil
 }
 
